@@ -20,7 +20,7 @@ from hashlib import md5
 from zope.interface import Interface, implementer
 
 from twisted.cred import error
-from twisted.cred._digest import calcHA1, calcHA2, calcResponse
+from twisted.cred._digest import algorithms, calcHA1, calcHA2, calcResponse
 from twisted.python.compat import nativeString, networkString
 from twisted.python.deprecate import deprecatedModuleAttribute
 from twisted.python.randbytes import secureRandom
@@ -371,7 +371,8 @@ class DigestCredentialFactory:
         @param host: The address the request was sent from.
 
         @raise error.LoginFailed: If the response does not contain a username,
-            a nonce, an opaque, or if the opaque is invalid.
+            a nonce, an opaque, if it names an unsupported algorithm, or if
+            the opaque is invalid.
 
         @return: L{DigestedCredentials}
         """
@@ -394,6 +395,10 @@ class DigestCredentialFactory:
 
         if "nonce" not in auth:
             raise error.LoginFailed("Invalid response, no nonce given.")
+
+        # The response can only be checked with an algorithm we know
+        if auth.get("algorithm", b"md5").lower() not in algorithms:
+            raise error.LoginFailed("Invalid response, unsupported algorithm.")
 
         # Now verify the nonce/opaque values for this client
         if self._verifyOpaque(auth.get("opaque"), auth.get("nonce"), host):
